@@ -242,7 +242,9 @@ fn infer_generic_raw_member_type(
         .ok_or(InferFailReason::None)?;
 
     if let Some(origin) = type_decl.get_alias_origin(db, Some(&substitutor)) {
-        return infer_raw_member_type(db, &origin, member_key);
+        // keep the guard across the alias hop: `---@alias Y<T> B` + `---@class B: Y<integer>` is a
+        // cycle that neither the alias nor the super-type cycle filter sees
+        return infer_raw_member_type_guard(db, &origin, member_key, infer_guard);
     }
 
     let base_ref_type = LuaType::Ref(base_ref_id.clone());
